@@ -122,7 +122,8 @@ BOXES = {
         "Encode(2, constructive=False)", "Encode(2, reset_bits=True)",
         "Measure().dagger()", "Measure(destructive=False).dagger()", "Measure(override_bits=True).dagger()",
         "Encode().dagger()", "Encode(constructive=False).dagger()", "Encode(reset_bits=True).dagger()",
-        "Discard()", "Discard(2)", "Discard(bit)", "Discard(qubit)", "Discard(bit @ bit)", "Discard(qubit @ qubit)",
+        "Discard()", "Discard(2)", "Discard(bit)", "Discard(qubit)", "Discard(bit @ bit)", "Discard(qubit @ qubit)", "Discard(bit @ qubit)", "Discard(qubit @ bit @ qubit)",
+        "MixedState(qubit @ bit)", "MixedState(bit @ qubit @ bit)", "Discard(qubit @ bit).dagger()",
         "Discard(0)", "MixedState()", "MixedState(2)", "MixedState(bit)", "MixedState(qubit)", "MixedState(bit @ bit)",
         "Discard(bit).dagger()", "MixedState(bit).dagger()", "Discard(2).dagger()", "MixedState(bit @ bit).dagger()",
         "Discard(Ty(Digit(3)))", "MixedState(Ty(Qudit(3)))",
